@@ -563,8 +563,8 @@ class Node(FastTypedDict):
               # assert self.gpus[ro.index].occupation >= 0.0, \
               #         'invalid gpu release: %s' % self
 
-            self.lfs += slot.lfs
-            self.mem += slot.mem
+            if self.lfs is not None: self.lfs += slot.lfs
+            if self.mem is not None: self.mem += slot.mem
 
 
     # --------------------------------------------------------------------------
